@@ -81,6 +81,8 @@ Fixpoint linb (fuel : nat) (m : amap) (h : list hop) : bool :=
   end.
 Definition linearizable_b (m : amap) (h : list hop) : bool := linb (length h) m h.
 
+Definition sp_fuel : nat := 4000.
+
 (* all schedules from s, one machine step at a time: [chk] holds in every state in which all tasks are done *)
 Section Explore.
   Variable pol : policy.
@@ -103,7 +105,7 @@ Section Explore.
       if fdone s then chk s
       else forallb (fun t => match fpc_of s t with
                              | QDone => true
-                             | _ => let x := frun_to_sp pol sof keq 4000 s t 0 in
+                             | _ => let x := frun_to_sp pol sof keq sp_fuel s t 0 in
                                     match snd (fst x) with O => false | _ => explore_sp f (fst (fst x)) end
                              end)
                    (seq 0 (length (fs_thr s)))
